@@ -509,3 +509,108 @@ Definition c13_check (case : flavour * string * list stmt * option ctree) : bool
     | _, _ => false
     end
   end.
+
+(* ================================================================== the Bmad converter after the repairs of F18 (two), F42, F43
+   [convert_bmad] above stays: it is the transcription of bmad.convert_element as it was, and the _refuted lemmas are about it.
+   [convert_bmad_v fx] is the transcription with the four repairs switched on or off independently; the harness sets every
+   switch from the status of its finding in known_findings.json (known -> false, fixed -> true).
+   LatticeLangProofs.convert_bmad_v_no_fixes: with all switches off it IS [convert_bmad]. *)
+Record fixes := mk_fixes {
+  fx_g : bool;        (* F18 (sbend):    angle = bmad_parsed["angle"] if "angle" in bmad_parsed else bmad_parsed.get("g", 0.0) * bmad_parsed["l"] *)
+  fx_kick : bool;     (* F18 (kickers):  "l" and "kick" are understood properties of hkicker / vkicker *)
+  fx_ecol : bool;     (* F42:            the ecollimator Segment is built with name=name *)
+  fx_e1 : bool        (* F43:            dipole_e1 = bmad_parsed.get("e1", 0.0) *)
+}.
+Definition no_fixes : fixes := mk_fixes false false false false.
+Definition all_fixes : fixes := mk_fixes true true true true.
+
+(* the bend angle of a Bmad sbend: [angle] when given, else g * l (binary64 product, before the binary32 cast) *)
+Definition sbend_angle (g_fixed : bool) (ps : props) (l : float) : option float :=
+  if g_fixed && negb (has ps "angle") then g <- opt ps "g" zero ;; Some (PrimFloat.mul g l)
+  else opt ps "angle" zero.
+
+Definition kicker_names (kick_fixed : bool) : list string :=
+  if kick_fixed then ["element_type"; "type"; "alias"; "l"; "kick"] else ["element_type"; "type"; "alias"].
+
+Definition convert_bmad_v (fx : fixes) (name ty : string) (ps : props) : option ctree :=
+  if String.eqb ty "marker" then
+    _ <- guard (understood ["element_type"; "alias"; "type"; "sr_wake"; "sr_wake%scale_with_length"; "sr_wake%amp_scale"] ps) ;;
+    Some (CLeaf "Marker" name [])
+  else if mem ty ["monitor"; "instrument"] then
+    _ <- guard (understood ["element_type"; "alias"; "type"; "l"] ps) ;;
+    if has ps "l" then l <- req ps "l" ;; Some (drift name l) else Some (CLeaf "Marker" name [])
+  else if String.eqb ty "pipe" then
+    _ <- guard (understood ["element_type"; "alias"; "type"; "l"; "descrip"] ps) ;; l <- req ps "l" ;; Some (drift name l)
+  else if String.eqb ty "drift" then
+    _ <- guard (understood ["element_type"; "l"; "type"; "descrip"] ps) ;; l <- req ps "l" ;; Some (drift name l)
+  else if String.eqb ty "hkicker" then
+    _ <- guard (understood (kicker_names (fx_kick fx)) ps) ;; l <- opt ps "l" zero ;; a <- opt ps "kick" zero ;;
+    Some (corrector "HorizontalCorrector" name l a)
+  else if String.eqb ty "vkicker" then
+    _ <- guard (understood (kicker_names (fx_kick fx)) ps) ;; l <- opt ps "l" zero ;; a <- opt ps "kick" zero ;;
+    Some (corrector "VerticalCorrector" name l a)
+  else if String.eqb ty "sbend" then
+    _ <- guard (understood ["element_type"; "alias"; "type"; "hgap"; "l"; "angle"; "e1"; "e2"; "fint"; "fintx"; "fringe_type";
+                            "ref_tilt"; "g"; "dg"] ps) ;;
+    l <- req ps "l" ;; hg <- opt ps "hgap" zero ;; a <- sbend_angle (fx_g fx) ps l ;;
+    e1 <- (if fx_e1 fx then opt ps "e1" zero else req ps "e1") ;; e2 <- opt ps "e2" zero ;;
+    t <- opt ps "ref_tilt" zero ;; fi <- opt ps "fint" zero ;; fx' <- opt ps "fintx" fi ;;
+    Some (dipole "Dipole" name l a zero e1 e2 t (PrimFloat.mul two hg) fi fx')
+  else if String.eqb ty "quadrupole" then
+    _ <- guard (understood ["element_type"; "l"; "k1"; "type"; "aperture"; "alias"; "tilt"] ps) ;;
+    l <- req ps "l" ;; k1 <- req ps "k1" ;; t <- opt ps "tilt" zero ;;
+    Some (CLeaf "Quadrupole" name [("length", f32 l); ("k1", f32 k1); ("tilt", f32 t)])
+  else if String.eqb ty "solenoid" then
+    _ <- guard (understood ["element_type"; "l"; "ks"; "alias"] ps) ;; l <- req ps "l" ;; k <- req ps "ks" ;;
+    Some (CLeaf "Solenoid" name [("length", f32 l); ("k", f32 k)])
+  else if String.eqb ty "lcavity" then
+    _ <- guard (understood ["element_type"; "l"; "type"; "rf_frequency"; "voltage"; "phi0"; "sr_wake"; "cavity_type"; "alias"] ps) ;;
+    l <- req ps "l" ;; v <- opt ps "voltage" zero ;; p <- opt ps "phi0" zero ;; f <- req ps "rf_frequency" ;;
+    Some (cavity "Cavity" name l v (bmad_phase p) f)
+  else if mem ty ["rcollimator"; "ecollimator"] then
+    _ <- guard (understood ["element_type"; "l"; "alias"; "type"; "x_limit"; "y_limit"] ps) ;;
+    l <- opt ps "l" zero ;; xm <- opt ps "x_limit" infinity ;; ym <- opt ps "y_limit" infinity ;;
+    Some (CSeg (if fx_ecol fx || String.eqb ty "rcollimator" then Some name else None)
+               [drift (name ++ "_drift") l;
+                aperture (name ++ "_aperture") xm ym (if String.eqb ty "ecollimator" then "elliptical" else "rectangular")])
+  else if String.eqb ty "wiggler" then
+    _ <- guard (understood ["element_type"; "type"; "l_period"; "n_period"; "b_max"; "l"; "alias"; "tilt"; "ds_step"] ps) ;;
+    l <- req ps "l" ;; Some (CLeaf "Undulator" name [("length", f32 l)])
+  else if String.eqb ty "patch" then
+    _ <- guard (understood ["element_type"; "tilt"] ps) ;; l <- opt ps "l" zero ;; Some (drift name l)
+  else l <- opt ps "l" zero ;; Some (drift name l).
+
+Definition convert_bmad_fixed : string -> string -> props -> option ctree := convert_bmad_v all_fixes.
+
+Definition convert_v (fx : fixes) (fl : flavour) (name : string) (ps : props) : option ctree :=
+  match get ps "element_type" with
+  | Some (PStr ty) => match fl with Elegant => convert_elegant name ty ps | Bmad => convert_bmad_v fx name ty ps end
+  | _ => None
+  end.
+
+Fixpoint expand_v (fx : fixes) (fuel : nat) (fl : flavour) (c : ctx) (name : string) : option ctree :=
+  match fuel with
+  | 0 => None
+  | S f =>
+    match get c name with
+    | Some (VLine items) => ch <- collect (map (expand_v fx f fl c) items) ;; Some (CSeg (Some name) ch)
+    | Some (VElem ps) => convert_v fx fl name ps
+    | _ => None
+    end
+  end.
+
+Definition denote_fuel_v (fx : fixes) (fuel : nat) (fl : flavour) (elegant_root : string) (ss : list stmt) : option ctree :=
+  c <- run ctx0 ss ;; r <- root_of fl c elegant_root ;; expand_v fx fuel fl c r.
+
+Definition denote_v (fx : fixes) (fl : flavour) (elegant_root : string) (ss : list stmt) : option ctree :=
+  denote_fuel_v fx (S (List.length ss)) fl elegant_root ss.
+
+Definition c13_check_v (fx : fixes) (case : flavour * string * list stmt * option ctree) : bool :=
+  match case with
+  | (fl, root, ss, obs) =>
+    match denote_v fx fl root ss, obs with
+    | Some t, Some o => ctree_eqb t o
+    | None, None => true
+    | _, _ => false
+    end
+  end.
